@@ -144,6 +144,9 @@ func (run *hsRun) perform(c *HSCall) error {
 	switch c.Kind {
 	case "eval":
 		_, err = run.h.Eval(c.Name, string(c.Src), run.opts(c)...)
+		if err != nil {
+			run.crossCheckStage(c, err)
+		}
 	case "load":
 		err = run.h.Load(c.Name, run.opts(c)...)
 	case "call":
@@ -153,6 +156,25 @@ func (run *hsRun) perform(c *HSCall) error {
 	}
 	run.note(c.Kind, c.Via, err)
 	return err
+}
+
+// crossCheckStage: tokenizing and parsing are pure functions of the source text, so the
+// stage probe (tokenize -> parse on a fresh VM, nothing else) says which of the two fails,
+// if any; Eval's error must then be prefixed with exactly that stage.
+func (run *hsRun) crossCheckStage(c *HSCall, err error) {
+	var esc *core.ErrEscaped
+	if errors.As(err, &esc) {
+		return
+	}
+	st, perr := goatlang.VerifStages("eval", core.NewSimDisk(nil, nil).FS(), c.Name, string(c.Src))
+	if perr == nil || (st != "tokenize" && st != "parse") {
+		return
+	}
+	m := stageRe.FindStringSubmatch(err.Error())
+	if m != nil && m[1] != st {
+		run.res.Fail("C03", "C03/stage", "wrong-stage-"+st, "the source fails in %s (%v), but Eval reports the failure as %q", st, firstLine(perr.Error()), firstLine(err.Error()))
+	}
+	run.h.C.Inc("stage_crosschecked")
 }
 
 // note classifies the outcome of one entry-point call and applies C03/stage.
